@@ -63,19 +63,27 @@ def render(d):
     elif d.copy == "deepattr":
         attrs.append("#[deep_copy]")
     gens = []
+    wheres = []
+    # a deterministic third of the definitions write their bounds in a where clause (propagated since fix 0191486)
+    in_where = (sum(ord(ch) for ch in d.name) % 3 == 0)
     for (p, role) in d.tparams:
         b = d.bounds.get(p)
-        gens.append("%s: %s" % (p, b) if b else p)
+        if b and in_where:
+            gens.append(p)
+            wheres.append("%s: %s" % (p, b))
+        else:
+            gens.append("%s: %s" % (p, b) if b else p)
     for cp in d.cparams:
         gens.append("const %s: usize" % cp)
     g = "<%s>" % ", ".join(gens) if gens else ""
+    wc = (" where %s" % ", ".join(wheres)) if wheres else ""
     out = "\n".join(attrs) + "\n"
     if d.kind == "unit":
-        out += "pub struct %s%s;\n" % (d.name, g)
+        out += "pub struct %s%s%s;\n" % (d.name, g, wc)
     elif d.kind == "struct":
-        out += "pub struct %s%s { %s }\n" % (d.name, g, ", ".join("pub %s: %s" % (n, t) for n, t in d.fields))
+        out += "pub struct %s%s%s { %s }\n" % (d.name, g, wc, ", ".join("pub %s: %s" % (n, t) for n, t in d.fields))
     elif d.kind == "tuple":
-        out += "pub struct %s%s(%s);\n" % (d.name, g, ", ".join("pub %s" % t for _n, t in d.fields))
+        out += "pub struct %s%s(%s)%s;\n" % (d.name, g, ", ".join("pub %s" % t for _n, t in d.fields), wc)
     else:
         vs = []
         for (vn, vk, fs) in d.variants:
@@ -85,7 +93,7 @@ def render(d):
                 vs.append("%s(%s)" % (vn, ", ".join(t for _n, t in fs)))
             else:
                 vs.append("%s { %s }" % (vn, ", ".join("%s: %s" % (n, t) for n, t in fs)))
-        out += "pub enum %s%s { %s }\n" % (d.name, g, ", ".join(vs))
+        out += "pub enum %s%s%s { %s }\n" % (d.name, g, wc, ", ".join(vs))
     return out
 
 
@@ -186,7 +194,10 @@ def build(tier, seed):
                     half = max(1, len(fs) // 2)
                     d.variants.append((VARIANT_NAMES[1], "tuple", [(None, t) for t in fs[:half]]))
                     d.variants.append((VARIANT_NAMES[2], "named", [(FIELD_NAMES[j], t) for j, t in enumerate(fs[half:] or ["u8"])]))
-                    # enums cannot carry bounds on field-typed parameters (known finding): M-role bounds only
+                    # inline bound on a field-typed parameter (the enum branch propagates them since fix 5a76344)
+                    for (p, role) in ps:
+                        if role == "F" and rnd.random() < 0.3:
+                            d.bounds[p] = "Clone + core::fmt::Debug"
                 else:
                     d.fields = [(FIELD_NAMES[j], t) for j, t in enumerate(fs)]
                     # inline bound on a field-typed parameter (supported for structs)
@@ -203,6 +214,17 @@ def build(tier, seed):
             for p in names[:n]:
                 d.bounds[p] = "ZeroCopy"
             d.fields = [(FIELD_NAMES[j], p) for j, p in enumerate(names[:n])] + [(FIELD_NAMES[n], rnd.choice(CLOSED_ZERO_FIELDS))]
+            defs.append(d)
+    # zero-copy enums with parameters
+    for names in PARAM_NAMES[:2] if tier == "quick" else PARAM_NAMES:
+        for n in (1, 2):
+            d = new()
+            d.kind, d.copy = "enum", "zero"
+            d.tparams = [(p, "F") for p in names[:n]]
+            for p in names[:n]:
+                d.bounds[p] = "ZeroCopy"
+            d.variants = [(VARIANT_NAMES[0], "unit", []), (VARIANT_NAMES[1], "tuple", [(None, p) for p in names[:n]]),
+                          (VARIANT_NAMES[2], "named", [(FIELD_NAMES[0], rnd.choice(CLOSED_ZERO_FIELDS))])]
             defs.append(d)
     # ---- 3. const parameters
     for kind in ("struct", "tuple", "enum"):
@@ -237,7 +259,7 @@ def build(tier, seed):
         d.copy = rnd.choice(["deep", "deep", "deepattr", "zero"])
         pool = CLOSED_ZERO_FIELDS if d.copy == "zero" else CLOSED_DEEP_FIELDS
         names = rnd.choice(PARAM_NAMES)
-        np_ = rnd.choice([0, 0, 1, 2, 3]) if d.copy != "zero" else (rnd.choice([0, 1]) if d.kind != "enum" else 0)
+        np_ = rnd.choice([0, 0, 1, 2, 3]) if d.copy != "zero" else rnd.choice([0, 1])
         fs = []
         for p in names[:np_]:
             role = "F" if d.copy == "zero" else rnd.choice(["F", "F", "M", "P"])
